@@ -159,6 +159,11 @@ pub struct ModTable {
     pub grp_drop: extern "C" fn(Grp),
     pub make_vec: extern "C" fn(u64) -> CVec<u64>,
     pub vec_push: extern "C" fn(&mut CVec<u64>, u64) -> u64,
+    pub vec_insert: extern "C" fn(&mut CVec<u64>, u64, u64) -> i64,
+    pub vec_pop: extern "C" fn(&mut CVec<u64>) -> i64,
+    pub vec_remove: extern "C" fn(&mut CVec<u64>, u64) -> i64,
+    pub vec_reserve: extern "C" fn(&mut CVec<u64>, u64) -> u64,
+    pub vec_clone: extern "C" fn(&CVec<u64>) -> CVec<u64>,
     pub vec_sum: extern "C" fn(&CVec<u64>) -> u64,
     pub slice_sum: extern "C" fn(CSliceRef<u64>) -> u64,
     pub vec_drop: extern "C" fn(CVec<u64>),
@@ -210,6 +215,11 @@ extern "C" fn grp_into_total(g: Grp) -> u64 { g.into_total() }
 extern "C" fn grp_drop(g: Grp) { drop(g) }
 extern "C" fn make_vec(n: u64) -> CVec<u64> { (0..n).map(|i| i * 7 + 1).collect::<Vec<_>>().into() }
 extern "C" fn vec_push(v: &mut CVec<u64>, x: u64) -> u64 { v.push(x); v.len() as u64 }
+extern "C" fn vec_insert(v: &mut CVec<u64>, i: u64, x: u64) -> i64 { if (i as usize) <= v.len() { v.insert(i as usize, x); v.len() as i64 } else { -1 } }
+extern "C" fn vec_pop(v: &mut CVec<u64>) -> i64 { v.pop().map(|x| x as i64).unwrap_or(-1) }
+extern "C" fn vec_remove(v: &mut CVec<u64>, i: u64) -> i64 { if (i as usize) < v.len() { v.remove(i as usize) as i64 } else { -1 } }
+extern "C" fn vec_reserve(v: &mut CVec<u64>, n: u64) -> u64 { v.reserve(n as usize); (v.capacity() - v.len() >= n as usize) as u64 }
+extern "C" fn vec_clone(v: &CVec<u64>) -> CVec<u64> { v.clone() }
 extern "C" fn vec_sum(v: &CVec<u64>) -> u64 { v.iter().fold(0u64, |a, b| a.wrapping_add(*b)) }
 extern "C" fn slice_sum(s: CSliceRef<u64>) -> u64 { s.as_slice().iter().fold(0u64, |a, b| a.wrapping_add(*b)) }
 extern "C" fn vec_drop(v: CVec<u64>) { drop(v) }
@@ -220,7 +230,7 @@ extern "C" fn stats(s: &mut Stats) {
 
 pub static TABLE: ModTable = ModTable {
     make_ctx, ctx_clone, ctx_drop, make_obj, obj_get, obj_add, obj_label_len, obj_into_total, obj_drop, make_grp, grp_get, grp_clone, grp_put, grp_sum,
-    grp_visit_local_cb, grp_fill_local_iter, grp_has_store, grp_into_total, grp_drop, make_vec, vec_push, vec_sum, slice_sum, vec_drop, stats,
+    grp_visit_local_cb, grp_fill_local_iter, grp_has_store, grp_into_total, grp_drop, make_vec, vec_push, vec_insert, vec_pop, vec_remove, vec_reserve, vec_clone, vec_sum, slice_sum, vec_drop, stats,
 };
 
 #[no_mangle]
